@@ -1,5 +1,10 @@
+import os, sys
+sys.path.insert(0, os.path.dirname(os.path.dirname(os.path.abspath(__file__))))
+import coqreplay as _coqreplay
+
 PROP = {
     "coq": ["C03"],
+    "extra": [_coqreplay.replay_srv],
     "exhaustive": False,
     "rule": "Real per-connection server path (VerifServeConn) on a scripted connection with a scripted handler: 1-4 pipelined "
             "frames per session, valid and boundary-directed requests of the 8 supported function codes, corrupted MBAP headers "
